@@ -6,15 +6,15 @@ KIND = {'mmap': 0, 'munmap': 1, 'mprotect_rw': 2, 'mprotect_none': 3, 'madv_dont
 
 def jobgen(ctx):
     tier = ctx['tier']
-    variants = [0, 3, 5, 7] if tier == 'quick' else list(range(10))
+    variants = [0, 3, 5, 5, 7] if tier == 'quick' else list(range(10)) + [5]
     reps = 1 if tier == 'quick' else 3
     builds = ['REL', 'SEC', 'DBG']
     cov = ctx['cov']; cov['bases'] = []; cov['enumerated_calls'] = 0
     n = 0
     for rep in range(reps):
-        for v in variants:
+        for vi, v in enumerate(variants):
             for b in builds:
-                sd = (ctx['seed_of'](ctx['seed'], 'c07_base', rep) // 10) * 10 + v
+                sd = (ctx['seed_of'](ctx['seed'], 'c07_base', rep * 100 + vi) // 20) * 20 + v + (10 if (vi % 2) else 0)
                 plan = ctx['dump_plan'](ctx['bdir'], b, 'c07_base', sd)
                 bp = os.path.join(ctx['tmp'], 'base-%s-%d.json' % (b, sd)); json.dump({'plan': plan}, open(bp, 'w'))
                 code, res = ctx['simrun'](ctx['bdir'], b, ['--replay', bp, '--trace'])
